@@ -101,7 +101,7 @@ fn tolerated(sig: &str, src: &str, pat: &Patterns, cx: &Cx) -> Option<&'static s
     let table: [(&'static str, bool); 6] = [
         (KF_STATE_OPERAND_PROJ, sig.starts_with("c18:emitted-rust-does-not-compile:E0502:") && pat.state_operand_load),
         (KF_MATH_EXT, sig.starts_with("c18:generated-program-crashed:unwrap-err:unexpected-external-call") && EXT_MATH_1.iter().chain(EXT_MATH_2.iter()).any(|f| src.contains(&format!("{f}(")))),
-        (KF_ONE_TUPLE, (sig.starts_with("c18:generated-program-crashed:unwrap-err:invalid-memory-handle") || sig == SIG_DIFF) && pat.one_tuple),
+        (KF_ONE_TUPLE, (sig.starts_with("c18:generated-program-crashed:unwrap-err:invalid-memory-handle") || (sig == SIG_DIFF && pat.alloc_handle_as_number)) && pat.one_tuple),
         (KF_DELAY_TIME_PROJ, sig == SIG_DIFF && pat.delay_time_element_ptr),
         (KF_IF_ARM_PROJ, sig == SIG_DIFF && pat.phi_of_element_ptr),
         (KF_CAPTURE_BY_VALUE, sig == SIG_DIFF && pat.element_captured_by_value_and_assigned),
@@ -216,6 +216,9 @@ struct Patterns {
     /// a closure captures the value behind an element pointer and the element is stored to in
     /// the same function
     element_captured_by_value_and_assigned: bool,
+    /// the handle of an aggregate allocation is read as a number (`word_to_f64(reg)` / `truthy(reg)`
+    /// of a register assigned by `memory.alloc`)
+    alloc_handle_as_number: bool,
 }
 
 fn reg_no(s: &str) -> Option<u32> {
@@ -228,9 +231,13 @@ fn analyse_fn(lines: &[&str], p: &mut Patterns) {
     use std::collections::BTreeSet;
     let mut elem: BTreeSet<u32> = BTreeSet::new();
     let mut alloc1: BTreeSet<u32> = BTreeSet::new();
+    let mut alloc: BTreeSet<u32> = BTreeSet::new();
     for l in lines {
         let t = l.trim();
         if let Some(n) = reg_no(t) {
+            if t.contains("[0] = self.memory.alloc(") {
+                alloc.insert(n);
+            }
             if t.contains("[0] = self.memory.get_element(") {
                 elem.insert(n);
             }
@@ -259,6 +266,18 @@ fn analyse_fn(lines: &[&str], p: &mut Patterns) {
                         p.phi_of_element_ptr = true;
                     }
                 }
+            }
+        }
+        for key in ["word_to_f64(reg_", "truthy(reg_"] {
+            let mut from = 0;
+            while let Some(i) = t[from..].find(key) {
+                let at = from + i + key.len() - 4;
+                if let Some(n) = reg_no(&t[at..]) {
+                    if alloc.contains(&n) && t[at..].starts_with(&format!("reg_{n}[0])")) {
+                        p.alloc_handle_as_number = true;
+                    }
+                }
+                from = at + 4;
             }
         }
         if t.contains("state.mem(self.memory.load(") || t.contains("state.delay(self.memory.load(") {
